@@ -416,6 +416,12 @@ func (w *World) execBlock(b *BlockSpec) bool {
 	w.St.Blocks++
 	w.Ev("COMMIT %d %X", height, cresp.Data)
 	w.M.afterBlock(w)
+	// reach measure: distinct states of the four custom modules seen at block boundaries
+	{
+		d := fullModuleDigest(w, w.CCtx())
+		h := sha256.Sum256([]byte(d))
+		w.St.StateDigests[hex.EncodeToString(h[:6])] = struct{}{}
+	}
 	for _, m := range w.Mons {
 		m.AfterBlock(w)
 	}
